@@ -1,18 +1,35 @@
 ----------------------------- MODULE CollectMC -----------------------------
-EXTENDS Collect, Json
+EXTENDS Collect, Json, Randomization
 (***************************************************************************)
 (* Model-checking wrapper for Collect.tla (C16).                           *)
-(*   Collect_exh.cfg   n <= 3, overlapping call, safety + NoLeak + Emit     *)
-(*                     (quick tier: decides and generates in one run)      *)
-(*   Collect_deep.cfg  n <= 4, overlapping call, safety + NoLeak           *)
-(*   Collect_gen.cfg   n <= 4: every reachable final observable outcome    *)
-(*                     of every scenario is printed once (Emit); grouped   *)
-(*                     by scenario this is the SET of outcomes the real    *)
-(*                     code may show for that scenario.                    *)
-(*   Collect_f_*.cfg   single-site deviations; each must violate the named *)
-(*                     clause (the property section is not vacuous)        *)
+(*   Collect_exh.cfg    1 round, n <= 3, overlapping call, safety + NoLeak  *)
+(*                      + Emit (quick tier: decides and generates in one    *)
+(*                      run)                                                *)
+(*   Collect_deep.cfg   1 round, n <= 4, overlapping call, safety + NoLeak  *)
+(*   Collect_gen.cfg    1 round, n <= 4: every reachable final observable   *)
+(*                      outcome of every scenario is printed once (Emit);   *)
+(*                      grouped by scenario this is the SET of outcomes the *)
+(*                      real code may show for that scenario.               *)
+(*   Collect_rounds.cfg       histories of rounds on ONE collector, every   *)
+(*   Collect_rounds_deep.cfg  clause for every round whatever is still     *)
+(*   Collect_rounds3.cfg      alive from earlier rounds; clocks that       *)
+(*                      answer 3 or 5 units after their round's start      *)
+(*                      (during / at the deadline of / after the next      *)
+(*                      round), the next round starting 0 or 1 units after *)
+(*                      the previous return.  rounds: 2 rounds, n <= 2,    *)
+(*                      completion times 1 3 5 Never, overlapping call     *)
+(*                      (quick); rounds_deep: the same with 1 2 3 5 Never; *)
+(*                      rounds3: 3 rounds, n <= 2, 1 3 5 Never, no         *)
+(*                      overlapping call (both thorough)                   *)
+(*   Collect_rgen.cfg   -simulate: histories of up to 3 rounds, n <= 3,     *)
+(*                      printed at their end (EmitHist) for the harness     *)
+(*   Collect_big.cfg    -simulate from InitBig: one round with 5 .. 64      *)
+(*                      clocks of which a prefix / suffix / random subset   *)
+(*                      is blocked (EmitHist)                               *)
+(*   Collect_f_*.cfg    single-site deviations; each must violate the named *)
+(*                      clause (the property section is not vacuous);       *)
+(*                      f_sharedchan: 2 rounds that share one channel       *)
 (***************************************************************************)
-SeqOf(f, m) == [x \in 1 .. m |-> f[x]]
 
 \* final states: everything done and the clock at its end.  The observable
 \* outcome of a round: return time, j, the prefix, and what happened to the
@@ -22,4 +39,58 @@ Emit == Final =>
   PrintT(<<"CASE", ToJson([n |-> n, d |-> SeqOf(dl, n), o |-> SeqOf(oc, n),
                            rt |-> rt, j |-> j, prefix |-> Prefix,
                            phase |-> p2phase, refused |-> (p2 = "panicked")])>>)
+\* a whole history: the finished rounds and the current (last) one
+EmitHist == Final => PrintT(<<"CASE", ToJson([rounds |-> Append(hist, RoundRec)])>>)
+
+----------------------------------------------------------------------------
+(* History generator (-simulate).  TLC's random walk picks uniformly among  *)
+(* the successors of a state; with NewRound enumerating every scenario the  *)
+(* next round would nearly always start at the first instant it can.  Here  *)
+(* NewRound draws ONE scenario per number of clocks, so that starting the   *)
+(* next round competes on equal terms with letting time or the goroutines   *)
+(* of the previous round go on.                                             *)
+\* (TLC evaluates constant-level expressions once; the draw has to mention a variable)
+Draw(S) == RandomElement({x \in S : rnd > 0})
+PickScen(m) ==
+  LET dd == [k \in 1 .. m |-> Draw(DVals \cup {Never})]
+  IN [d |-> dd, o |-> [k \in 1 .. m |-> IF dd[k] = Never THEN "err" ELSE IF Draw(1 .. 3) <= 2 THEN "ok" ELSE "err"]]
+NextGen == Urgent \/ Call2 \/ Tick \/ (\E m \in 0 .. MaxClocks : NewRoundWith(m, PickScen(m)))
+SpecGen == Init /\ [][NextGen]_vars
+
+----------------------------------------------------------------------------
+(* Rounds with many clocks.  The scenario is not enumerated (7^64) but      *)
+(* drawn by shape: which clocks are blocked (a prefix, a suffix, a random   *)
+(* subset of a size around the powers of two, where batches, semaphores and *)
+(* buffer capacities have their edges), how the blocked ones behave and how *)
+(* the others do.  The behaviour from there on is Collect's Next.           *)
+BigN    == {5, 8, 9, 12, 17, 33, 64}
+Edges   == {0, 1, 2, 3, 4, 5, 7, 8, 9, 11, 15, 16, 17, 31, 32, 33, 48, 63, 64}
+BKinds  == {"late", "vlate", "never", "mix"}     \* blocked: 3 | 5 | Never | any of these
+FKinds  == {"early", "mix"}                      \* others: 1 ok | 1 or 2, ok or err
+BlockedSet(m, shape, p) ==
+  CASE shape = "prefix" -> 1 .. p
+    [] shape = "suffix" -> (m - p + 1) .. m
+    [] OTHER            -> RandomSubset(p, 1 .. m)
+BlockedD(bk) ==
+  CASE bk = "late" -> 3 [] bk = "vlate" -> 5 [] bk = "never" -> Never
+    [] OTHER -> RandomElement({3, 5, Never})
+InitBig ==
+  /\ rnd = 1
+  /\ n \in BigN
+  /\ \E shape \in {"prefix", "suffix", "subset"}, p \in Edges, bk \in BKinds, fk \in FKinds :
+       /\ p <= n
+       \* (a singleton \E binds the drawn set once; a LET would draw it again at every use)
+       /\ \E B \in {BlockedSet(n, shape, p)} :
+            dl = [k \in 1 .. n |-> IF k \in B THEN BlockedD(bk)
+                                    ELSE IF fk = "early" THEN 1 ELSE RandomElement({1, 2})]
+       /\ oc = [k \in 1 .. n |-> IF dl[k] = Never THEN "err"
+                                  ELSE IF dl[k] > 2 \/ fk = "early" THEN "ok"
+                                  ELSE IF RandomElement(1 .. 3) <= 2 THEN "ok" ELSE "err"]
+  /\ now = 0 /\ ctxDone = FALSE /\ num = 0
+  /\ mpc = "cas" /\ i = 0 /\ j = 0 /\ ms = [x \in 1 .. n |-> 0]
+  /\ spc = [k \in 1 .. n |-> "idle"]
+  /\ dpc = "none" /\ dn = 0
+  /\ p2 = "idle" /\ got = {} /\ rt = -1 /\ p2phase = "none"
+  /\ osnd = <<>> /\ odr = <<>> /\ gap = 0 /\ live = 0 /\ hist = <<>>
+SpecBig == InitBig /\ [][Next]_vars
 =============================================================================
